@@ -529,6 +529,87 @@ impl<'s, const M: usize> Exec<'s, M> {
         }
     }
 
+    /// element counts that cannot be satisfied: see `Op::HugeLen`
+    pub fn op_huge_len(&mut self, entry: u8, try_: bool, len: usize) {
+        let entry = entry % 7;
+        let has_try = entry <= 4;
+        let try_ = try_ && has_try && !self.opts.infallible_twin;
+        let esize = if entry == 1 {
+            2
+        } else if entry == 2 {
+            4
+        } else {
+            8
+        };
+        // only counts whose byte size is out of reach of the simulated machine
+        let len = if (len as u128) * (esize as u128) < (1u128 << 36) { usize::MAX / esize + 2 } else { len };
+        let cc0 = self.cc();
+        let ran = Cell::new(false);
+        let init_ran = || {
+            let _g = harness_scope();
+            ran.set(true);
+            std::panic::resume_unwind(Box::new("<injected>"))
+        };
+        struct Claim<'a, F: Fn() -> u64>(usize, &'a F);
+        impl<'a, F: Fn() -> u64> Iterator for Claim<'a, F> {
+            type Item = u64;
+            fn next(&mut self) -> Option<u64> {
+                Some((self.1)())
+            }
+            fn size_hint(&self) -> (usize, Option<usize>) {
+                (self.0, Some(self.0))
+            }
+        }
+        impl<'a, F: Fn() -> u64> ExactSizeIterator for Claim<'a, F> {}
+        let never = || -> u64 { init_ran() };
+        let r: CallOut<Result<(usize, usize), ()>> = self.call(|b| match (entry, try_) {
+            (0, true) => b.try_alloc_slice_fill_with::<u64, _>(len, |_| init_ran()).map(|s| (s.as_ptr() as usize, s.len())).map_err(|_| ()),
+            (0, false) => {
+                let s = b.alloc_slice_fill_with::<u64, _>(len, |_| init_ran());
+                Ok((s.as_ptr() as usize, s.len()))
+            }
+            (1, true) => b.try_alloc_slice_fill_copy::<u16>(len, 7).map(|s| (s.as_ptr() as usize, s.len())).map_err(|_| ()),
+            (1, false) => {
+                let s = b.alloc_slice_fill_copy::<u16>(len, 7);
+                Ok((s.as_ptr() as usize, s.len()))
+            }
+            (2, true) => b.try_alloc_slice_fill_clone::<u32>(len, &7).map(|s| (s.as_ptr() as usize, s.len())).map_err(|_| ()),
+            (2, false) => {
+                let s = b.alloc_slice_fill_clone::<u32>(len, &7);
+                Ok((s.as_ptr() as usize, s.len()))
+            }
+            (3, true) => b.try_alloc_slice_fill_default::<u64>(len).map(|s| (s.as_ptr() as usize, s.len())).map_err(|_| ()),
+            (3, false) => {
+                let s = b.alloc_slice_fill_default::<u64>(len);
+                Ok((s.as_ptr() as usize, s.len()))
+            }
+            (4, true) => b.try_alloc_slice_fill_iter(Claim(len, &never)).map(|s| (s.as_ptr() as usize, s.len())).map_err(|_| ()),
+            (4, false) => {
+                let s = b.alloc_slice_fill_iter(Claim(len, &never));
+                Ok((s.as_ptr() as usize, s.len()))
+            }
+            (5, _) => match b.alloc_slice_try_fill_with::<u64, _, ()>(len, |_| -> Result<u64, ()> { Ok(init_ran()) }) {
+                Ok(s) => Ok((s.as_ptr() as usize, s.len())),
+                Err(()) => Ok((0, 0)),
+            },
+            _ => match b.alloc_slice_try_fill_iter::<u64, _, ()>(Claim(len, &never).map(Ok::<u64, ()>)) {
+                Ok(s) => Ok((s.as_ptr() as usize, s.len())),
+                Err(()) => Ok((0, 0)),
+            },
+        });
+        self.stats.hit("huge_len_request");
+        let (out, _res) = self.classify(try_, r);
+        if ran.get() {
+            self.violate("C19", "impossible-size-accepted", "initialiser-ran", format!("entry {} len {}", entry, len));
+            if entry >= 5 {
+                self.violate("C11", "initialiser-ran-without-space", "", format!("entry {} len {}", entry, len));
+            }
+        } else if out == Out::Ok {
+            self.violate("C19", "impossible-size-accepted", "returned", format!("entry {} len {}", entry, len));
+        }
+        self.alloc_done(try_, if out == Out::Ok { Out::Panic } else { out }, None, usize::MAX, esize, Expect::Opaque, false, cc0);
+    }
+
     pub fn op_fill_iter<T: Copy + 'static>(&mut self, try_: bool, len: usize, lie: i8, seed: u32) {
         let try_ = try_ && !self.opts.infallible_twin;
         let cc0 = self.cc();
